@@ -431,6 +431,15 @@ func generate(h *hist, r *lib.Rand, idx int) {
 			}
 			h.apply(o)
 		}
+		// lifecycle: genesis export + import, then somebody tries to execute claims that were already executed
+		if r.Chance(2) {
+			h.apply(Op{Kind: "export"})
+			for n := uint64(1); n <= ob.lastObs && n <= 6; n++ {
+				if r.Chance(60) {
+					h.apply(Op{Kind: map[bool]string{true: "exec", false: "exec_evm"}[r.Chance(50)], Nonce: n})
+				}
+			}
+		}
 		// objects the oracles have to confirm, stray confirmations, window changes (eth-style chains)
 		if h.module != "tron" && r.Chance(6) {
 			switch r.Intn(6) {
@@ -482,6 +491,7 @@ func generate(h *hist, r *lib.Rand, idx int) {
 type scenario struct {
 	Name   string
 	Module string
+	Light  bool // long history: full store projection only every 40th operation
 	Ops    []Op
 	Check  func(h *hist, rep *lib.Report)
 }
@@ -490,9 +500,58 @@ func vote(b int, nonce uint64, kind string, variant int) Op {
 	return Op{Kind: "vote", Bridger: b, Nonce: nonce, CKind: kind, Variant: variant}
 }
 
+// longLag: oracle 2 votes event 1 and then stays silent while oracles 0 and 1 (85 % of the power) observe 104 events;
+// then it tries to jump to the chain's position (must be refused) and continues at event 2
+func longLag() []Op {
+	ops := []Op{
+		{Kind: "gov", List: []int{0, 1, 2}},
+		{Kind: "bond", Oracle: 0, Bridger: 0, Ext: 0, Stake: 30_000}, {Kind: "bond", Oracle: 1, Bridger: 1, Ext: 1, Stake: 30_000},
+		{Kind: "bond", Oracle: 2, Bridger: 2, Ext: 2, Stake: 10_000},
+		{Kind: "vote", Bridger: 2, Nonce: 1, CKind: "oset"},
+	}
+	for n := uint64(1); n <= 104; n++ {
+		ops = append(ops, Op{Kind: "vote", Bridger: 0, Nonce: n, CKind: "oset"}, Op{Kind: "vote", Bridger: 1, Nonce: n, CKind: "oset"})
+	}
+	ops = append(ops,
+		Op{Kind: "vote", Bridger: 2, Nonce: 104, CKind: "oset"}, // 103 events skipped: refused
+		Op{Kind: "vote", Bridger: 2, Nonce: 105, CKind: "oset"}, // refused
+		Op{Kind: "vote", Bridger: 2, Nonce: 2, CKind: "oset"},   // its next event
+		Op{Kind: "vote", Bridger: 2, Nonce: 3, CKind: "oset"},
+		Op{Kind: "vote", Bridger: 0, Nonce: 105, CKind: "oset"}, Op{Kind: "vote", Bridger: 1, Nonce: 105, CKind: "oset"},
+		Op{Kind: "vote", Bridger: 2, Nonce: 105, CKind: "oset"}, // still refused
+		Op{Kind: "vote", Bridger: 2, Nonce: 4, CKind: "oset"},
+	)
+	return ops
+}
+
+// rotationAtMaximum: the approved list is full (100 oracles, MaxOracleSize); governance replaces four of them, the
+// removed ones stay registered (offline, unbonding) while the four new ones bond: 104 records, 100 of them online
+func rotationAtMaximum() []Op {
+	var first, second []int
+	for i := 0; i < 100; i++ {
+		first = append(first, i)
+	}
+	for i := 4; i < 104; i++ {
+		second = append(second, i)
+	}
+	ops := []Op{{Kind: "gov", List: first}}
+	for i := 0; i < 100; i++ {
+		ops = append(ops, Op{Kind: "bond", Oracle: i, Bridger: i, Ext: i, Stake: 10_000 + int64(i%7)*100})
+	}
+	ops = append(ops, Op{Kind: "gov", List: second})
+	for i := 100; i < 104; i++ {
+		ops = append(ops, Op{Kind: "bond", Oracle: i, Bridger: i, Ext: i, Stake: 10_000})
+	}
+	ops = append(ops, Op{Kind: "block"}, Op{Kind: "vote", Bridger: 50, Nonce: 1, CKind: "oset"}, Op{Kind: "vote", Bridger: 103, Nonce: 1, CKind: "oset"},
+		Op{Kind: "add", Oracle: 101, Stake: 500}, Op{Kind: "export"}, Op{Kind: "block"})
+	return ops
+}
+
 func scripted() []scenario {
 	note := func(rep *lib.Report, s string) { rep.Notes = append(rep.Notes, s) }
 	return []scenario{
+		{Name: "long-lag", Module: "eth", Light: true, Ops: longLag(), Check: func(h *hist, rep *lib.Report) {}},
+		{Name: "rotation-at-maximum", Module: "tron", Light: true, Ops: rotationAtMaximum(), Check: func(h *hist, rep *lib.Report) {}},
 		{
 			// witness of P_Attest.revote_refuted: four equal oracles; 0 and 1 vote; 0 is removed by governance,
 			// unbonds, is approved and bonds again, votes again on the still pending attestation: votes [0,1,0]
@@ -596,6 +655,36 @@ func scripted() []scenario {
 					note(rep, fmt.Sprintf("re-entrant callback scenario: callbacks ran %d and %d times (expected 1 and 1)", h.handlerRuns(1), h.handlerRuns(2)))
 				}
 			},
+		},
+		{
+			// lifecycle: export + import with executed and still parked claims, a lagging oracle, one that is ahead,
+			// a confirmation whose bridger was edited afterwards, an open bridge call
+			Name: "export-import", Module: "eth",
+			Ops: []Op{
+				{Kind: "gov", List: []int{0, 1, 2, 3}},
+				{Kind: "bond", Oracle: 0, Bridger: 0, Ext: 0, Stake: 30_000}, {Kind: "bond", Oracle: 1, Bridger: 1, Ext: 1, Stake: 30_000},
+				{Kind: "bond", Oracle: 2, Bridger: 2, Ext: 2, Stake: 15_000}, {Kind: "bond", Oracle: 3, Bridger: 3, Ext: 3, Stake: 12_000},
+				vote(0, 1, "token", 0), vote(1, 1, "token", 0), vote(2, 1, "token", 0),
+				vote(0, 2, "call", 0), vote(1, 2, "call", 0),
+				vote(0, 3, "fx", 0), vote(1, 3, "fx", 0),
+				vote(0, 4, "call", 0), vote(1, 4, "call", 1), // undecided
+				vote(0, 5, "fx", 0),                            // oracle 0 is ahead
+				{Kind: "exec", Nonce: 2},                       // executed; 3 stays parked
+				{Kind: "block"}, {Kind: "bcall"},
+				{Kind: "confirm", CKind: "oset", Nonce: 1, Ext: 0}, {Kind: "confirm", CKind: "oset", Nonce: 1, Ext: 1},
+				{Kind: "edit", Oracle: 1, Bridger: spareBridger},
+				{Kind: "slash", List: []int{3}},
+				{Kind: "export"},
+				{Kind: "exec", Nonce: 2}, {Kind: "exec_evm", Nonce: 2}, // already executed: must be refused
+				{Kind: "exec", Nonce: 3},                                // was parked, lost by the export (C05-2): refused, zero executions
+				vote(0, 5, "fx", 0),                                     // refused: oracle 0 already voted 5
+				vote(0, 6, "fx", 0),
+				vote(2, 2, "call", 0), // oracle 2 lagged at nonce 1 (last observed 3): after the restart it is at 2 like before
+				vote(3, 3, "fx", 0),   // offline: refused
+				vote(2, 3, "fx", 0), vote(2, 4, "call", 0),
+				{Kind: "bcall"}, {Kind: "block"},
+			},
+			Check: func(h *hist, rep *lib.Report) {},
 		},
 		{
 			// the three loops of the end blocker's slashing phase (signed window 2): an oracle set, a batch and a bridge call,
